@@ -23,8 +23,97 @@ fn apply(ls: &mut LeanString, or: &mut String, op: u64, arg: u64) {
     }
 }
 
-pub fn run(rng: &mut Rng, n: usize, sink: &mut Sink) {
+/// Two persistent workers released together by a barrier: each receives one of the last two
+/// handles on a heap buffer and releases it at the same moment (drop / copy-on-write mutation /
+/// clone_from), tens of thousands of times. After every round nothing may remain allocated.
+fn release_races(rng: &mut Rng, rounds: usize, sink: &mut Sink) -> u64 {
+    use std::sync::Mutex;
+    let start = Arc::new(Barrier::new(3));
+    let done = Arc::new(Barrier::new(3));
+    let slots: Vec<Arc<Mutex<Option<(LeanString, u8)>>>> = (0..2).map(|_| Arc::new(Mutex::new(None))).collect();
+    let stop = Arc::new(std::sync::atomic::AtomicBool::new(false));
+    let bad = Arc::new(Mutex::new(Vec::<String>::new()));
+    let mut workers = vec![];
+    for w in 0..2 {
+        let (start, done, slot, stop, bad) = (start.clone(), done.clone(), slots[w].clone(), stop.clone(), bad.clone());
+        workers.push(std::thread::spawn(move || {
+            loop {
+                start.wait();
+                if stop.load(std::sync::atomic::Ordering::SeqCst) {
+                    break;
+                }
+                let item = slot.lock().unwrap().take();
+                if let Some((mut s, op)) = item {
+                    let want = s.as_str().to_string();
+                    match op {
+                        0 => drop(s),
+                        1 => {
+                            s.push('x');
+                            if s.as_str().len() != want.len() + 1 || !s.as_str().starts_with(&want) {
+                                bad.lock().unwrap().push(format!("push on a racing clone read {:?}", s.as_str()));
+                            }
+                        }
+                        2 => {
+                            let c = s.remove(0);
+                            if want.chars().next() != Some(c) {
+                                bad.lock().unwrap().push("remove on a racing clone returned a wrong char".into());
+                            }
+                        }
+                        3 => {
+                            s.shrink_to_fit();
+                            if s.as_str() != want {
+                                bad.lock().unwrap().push("shrink_to_fit on a racing clone changed the text".into());
+                            }
+                        }
+                        _ => {
+                            let other = LeanString::from("a different heap string, long enough");
+                            s.clone_from(&other);
+                        }
+                    }
+                }
+                done.wait();
+            }
+        }));
+    }
     let mut evals = 0u64;
+    for round in 0..rounds {
+        let text = gn::text_of_len(rng, 40 + round % 7);
+        let a = LeanString::from(text.as_str());
+        let b = a.clone();
+        let (oa, ob) = ((rng.next() % 5) as u8, if round % 2 == 0 { 0 } else { (rng.next() % 5) as u8 });
+        *slots[0].lock().unwrap() = Some((a, oa));
+        *slots[1].lock().unwrap() = Some((b, ob));
+        start.wait();
+        done.wait();
+        evals += 1;
+        let (live, errs) = crate::shadow::with(|s| {
+            let l = s.live_blocks();
+            s.reset();
+            (l, std::mem::take(&mut s.errors))
+        });
+        if live != 0 {
+            sink.fail(&["C04", "C03"], format!("release race, round {round} (ops {oa}/{ob} on the last two handles of one buffer): {live} block(s) never released"));
+        }
+        for e in errs {
+            sink.fail(&["C04", "C03"], format!("release race, round {round}: shadow heap: {e}"));
+        }
+        if sink.ex.failures.len() > 5 {
+            break;
+        }
+    }
+    stop.store(true, std::sync::atomic::Ordering::SeqCst);
+    start.wait();
+    for w in workers {
+        let _ = w.join();
+    }
+    for b in bad.lock().unwrap().iter().take(5) {
+        sink.fail(&["C04"], b.clone());
+    }
+    evals
+}
+
+pub fn run(rng: &mut Rng, n: usize, sink: &mut Sink) {
+    let mut evals = release_races(rng, n * 150, sink);
     for it in 0..n {
         let tlen = 17 + rng.below(80);
         let text = gn::text_of_len(rng, tlen);
@@ -80,5 +169,6 @@ pub fn run(rng: &mut Rng, n: usize, sink: &mut Sink) {
     }
     sink.oracle.evaluations += evals;
     sink.oracle.distinct_nontrivial += evals;
+    sink.oracle.samples.push("two persistent workers released by a barrier, each holding one of the last two handles on a buffer and releasing it simultaneously (drop, push, remove, shrink_to_fit, clone_from); shadow heap audited after every round".into());
     sink.oracle.samples.push("2-3 OS threads released by a barrier, each owning a clone of one heap buffer and borrowing an Arc<LeanString>, running 2-4 random operations (push, push_str, pop, remove, insert, truncate, retain, clear, reserve, shrink_to, clone, read); each thread checked against its own String; shadow heap audited after every iteration".into());
 }
